@@ -308,7 +308,7 @@ package mqtt
 //@   ensures[C05,C13] wire: evCount("(*BaseClient).write") <= 1 && (evCount("(*BaseClient).write") == 1 ==> seqEq(evBytes("(*BaseClient).write", 0, 1), cat(b1(0xC0), b1(0))))
 //@   ensures[C07,C11,C13] nil_only_resp: result == nil ==> evCount("select") == 1 && evRet[int]("select", 0, 0) == 2 && fresh(evArg[chan *pktPingResp]("select", 0, 2)) &&
 //@        evIndex("(*BaseClient).write", 0) < evIndex("select", 0)
-//@   ensures[C11] waitset: evCount("select") == 1 ==> evArg[chan struct{}]("select", 0, 0) == c.connClosed &&
+//@   ensures[C11] waitset: evCount("select") == 1 ==> evRet[int]("select", 0, 0) >= 0 && evArg[chan struct{}]("select", 0, 0) == c.connClosed &&
 //@        evArg[<-chan struct{}]("select", 0, 1) == evRet[<-chan struct{}]("context.Context.Done", 0, 0) && evArg[context.Context]("context.Context.Done", 0, 0) == ctx
 //@   ensures[C11] no_bare_block: evCount("recv") == 0 && evCount("send") == 0
 //@   ensures[C11,C19] cancel_cause: evCount("select") == 1 && evRet[int]("select", 0, 0) == 1 && asError(result) != nil ==>
@@ -359,7 +359,7 @@ package mqtt
 //@   ensures[C06,C11,C16] reader: evCount("(*BaseClient).write") == 1 ==> evCount("go:(*BaseClient).Connect$1") == 1 &&
 //@        evIndex("go:(*BaseClient).Connect$1", 0) < evIndex("(*BaseClient).write", 0)
 //@   ensures[C07] waiter: evCount("select") == 1 ==> fresh(evArg[chan *pktConnAck]("select", 0, 2)) && evIndex("(*BaseClient).write", 0) < evIndex("select", 0)
-//@   ensures[C11] waitset: evCount("select") == 1 ==> evArg[chan struct{}]("select", 0, 0) == c.connClosed &&
+//@   ensures[C11] waitset: evCount("select") == 1 ==> evRet[int]("select", 0, 0) >= 0 && evArg[chan struct{}]("select", 0, 0) == c.connClosed &&
 //@        evArg[<-chan struct{}]("select", 0, 1) == evRet[<-chan struct{}]("context.Context.Done", 0, 0) && evArg[context.Context]("context.Context.Done", 0, 0) == ctx
 //@   ensures[C11] no_bare_block: evCount("recv") == 0 && evCount("send") == 0
 //@   ensures[C11,C19] cancel_cause: evCount("select") == 1 && evRet[int]("select", 0, 0) == 1 && asError(result1) != nil ==>
